@@ -34,7 +34,8 @@ Section C15.
 
   (* T15a.  While iterations are being saved: after EVERY history of estimations, quick
      estimations, evaluations (improving, worsening, equal, non-finite gradient, wrong length),
-     bootstrap loops, and processes stopped anywhere and restarted, if at least one evaluation
+     bootstrap loops (completed, or left by an exception with the object used again), and processes
+     stopped anywhere and restarted, if at least one evaluation
      counts (finite gradient, outside the bootstrap loop, by the current process since the last
      start of an estimation) then the file holds exactly the lines of the best counted point --
      the latest among equals -- and the marker is its log likelihood. *)
@@ -243,3 +244,15 @@ Theorem T15f_bootstrap_data_not_restored_refuted :
   = Some (file_content string show_txt c0 cfg2 ["0.9"; "2.1"]).
 Proof. exact bootstrap_data_not_restored_refuted. Qed.
 Print Assumptions T15f_bootstrap_data_not_restored_refuted.
+
+Theorem T15f_abort_data_not_restored_refuted :
+  let c0 := with_abort the_code true false in
+  let h := [EstimateStart; BootstrapBegin; Eval ["0.9"; "2.0"] (FFin 3) true; BootstrapAbort] in
+  let s := run string show_txt read_txt os_replace_atomic c0 cfg2 (fresh string cfg2 old_file) h in
+  st_other string s = true /\ st_susp string s = false /\
+  st_fs string (step string show_txt read_txt os_replace_atomic c0 cfg2 s (Eval ["0.9"; "2.1"] (FFin 7) true)) "__m.iter"
+  = Some (file_content string show_txt c0 cfg2 ["0.9"; "2.1"]) /\
+  st_other string (run string show_txt read_txt os_replace_atomic the_code cfg2 (fresh string cfg2 old_file) h) = false /\
+  st_susp string (run string show_txt read_txt os_replace_atomic the_code cfg2 (fresh string cfg2 old_file) h) = false.
+Proof. exact abort_data_not_restored_refuted. Qed.
+Print Assumptions T15f_abort_data_not_restored_refuted.
